@@ -147,9 +147,20 @@ type caseT struct {
 	From      int    `json:"from,omitempty"`
 	To        int    `json:"to,omitempty"`
 	Companion bool   `json:"companion,omitempty"`
+	// Kind "rules": Rules are the initial states of the four DestinationRules (rules_test.go), RuleOps
+	// the moves (level, new state); DR / Fl / Ft are not used (plain service, default switches).
+	Rules   []int    `json:"rules,omitempty"`
+	RuleOps [][2]int `json:"rule_ops,omitempty"`
 }
 
 func (c caseT) String() string {
+	if c.Kind == "rules" {
+		var ops []string
+		for _, op := range c.RuleOps {
+			ops = append(ops, ruleLevels[op[0]].Name+"->"+ruleStateName[op[1]])
+		}
+		return "DestinationRules {" + ruleStates(c.Rules) + "} then " + strings.Join(ops, ", ")
+	}
 	s := fmt.Sprintf("dr=%s service=%s %s ", drForms[c.DR].Name, flavours[c.Fl].Name, featForms[c.Ft].Name)
 	a := alphabet()
 	if c.Kind == "pair" {
@@ -297,6 +308,7 @@ type runner struct {
 	res     *engine.Result
 	alpha   []epSpec
 	envs    map[[2]int]*envT
+	ruleEnv *ruleEnv
 	verbose bool
 	// subscriber views identical to the on-request view judged fine at the same step (not judged again)
 	identical int64
@@ -334,6 +346,9 @@ func istioEndpoints(eps []epSpec) []*model.IstioEndpoint {
 // the violation is one of generation (key without prefix), otherwise the view is stale (key prefixed
 // with the view kind and the step).
 func (r *runner) runCase(c caseT) (nontrivial bool) {
+	if c.Kind == "rules" {
+		return r.runRuleCase(c)
+	}
 	e := r.env(c.DR, c.Fl)
 	ft := featForms[c.Ft]
 	ft.apply()
@@ -434,14 +449,15 @@ func (r *runner) ctxOf(c caseT, pi, ci int) viewCtx {
 	return viewCtx{DR: drForms[c.DR], Fl: flavours[c.Fl], Ft: featForms[c.Ft], Px: proxyForms[pi], Cl: clusterForms[ci]}
 }
 
-// staleKey: a stale view is named by the step and the kind of difference, not by the endpoint.
+// staleKey: a stale view is named by the view kind, the step after which it is stale, whether
+// membership or grouping differs, and the push decision - not by the endpoint that shows it (the
+// description carries that).
 func staleKey(viewKind, step, inner, push string) string {
-	for _, cut := range []string{"|ep=", "|settings=", "|svc="} {
-		if i := strings.Index(inner, cut); i >= 0 {
-			inner = inner[:i]
-		}
+	class := inner
+	if i := strings.IndexAny(inner, ":|"); i >= 0 {
+		class = inner[:i]
 	}
-	k := "stale-" + viewKind + "-view|after=" + step + "|" + inner
+	k := "stale-" + viewKind + "-view|after=" + step + "|" + class
 	if viewKind == "subscriber" {
 		k += "|push=" + push
 	}
@@ -489,8 +505,8 @@ func (r *runner) judgeView(c caseT, e *envT, w world, vc viewCtx, step, viewKind
 		if !coldKeys[key] {
 			key = staleKey(viewKind, step, f.Key, pushLabel)
 		}
-		desc := fmt.Sprintf("%s; %s view of proxy %s, cluster %s, after step %q (push decision %s); registries' latest reports: %s; reference requires %v; listed: %s; a cold generation lists: %s :: %s",
-			c, viewKind, vc.Px.Name, vc.Cl.Name, step, pushLabel, w, req, o, cold, f.Desc)
+		desc := fmt.Sprintf("%s; DestinationRule %s; %s view of proxy %s, cluster %s, after step %q (push decision %s); registries' latest reports: %s; reference requires %v; listed: %s; a cold generation lists: %s :: %s",
+			c, vc.DR.Name, viewKind, vc.Px.Name, vc.Cl.Name, step, pushLabel, w, req, o, cold, f.Desc)
 		r.res.Violate(key, desc, c)
 	}
 	return nontrivial, false
@@ -520,7 +536,7 @@ func subsetsUpTo(n, k int) [][]int {
 func TestC13b(t *testing.T) {
 	env := engine.GetEnv()
 	res := engine.NewResult("C13", "b-membership")
-	res.Rule = "case = DestinationRule form {none, subsets, +outlierDetection, +localityLbSetting.failover r1->r2, +distribute from r1/z1/* to {r1/z1/*:70, r2/z1/*:30}, outlierDetection.minHealthPercent=50} x service {plain, persistent-session cookie label, persistent-session header label, cluster-local, node-local (internalTrafficPolicy Local)} x unhealthy-endpoint switches {PILOT_AUTO_SEND_UNHEALTHY_ENDPOINTS on/off x PILOT_SEND_UNHEALTHY_ENDPOINTS on/off} x history; histories: (I) every subset of size 1..3 (thorough 1..4) of the 21-endpoint alphabet (against a healthy v1 http r1/z1 registry-A network-n1 IP base: UnHealthy, Draining, Terminating, version v2, no version, other service port, locality r1/z2, r2/z1, none, weight 3, network with gateways, network without gateway, discoverable from same cluster only, hostname address, draining label, other node; four registry-B endpoints, node names node-a/node-b exist in both clusters) reported by registries A (cluster c1) and B (cluster c2), then the first element's registry re-reports the successors of its endpoints, reports the empty list, reports the original list again, and finally the other registry's cluster is removed (or, when it reported nothing, the service is deleted in the first registry); (II) every ordered pair (a,b) of alphabet elements: a's registry reports {a}, then the same address with b's attributes, with and without an unchanged companion endpoint; after every step and for each of 3 proxies (sidecar c1/n1/r1z1 on node-a, sidecar c2/n2/r2z1 on node-a, router c1/n1/r1z2 on node-b) x 2 clusters (outbound|80||svc, outbound|80|v1|svc) the real EdsGenerator output is judged twice: as a proxy subscribing at that moment (request-driven generation through the shared XDS cache) and as a proxy that stayed subscribed and received what the update's push decision sends; one evaluation = one judged ClusterLoadAssignment; non-trivial = a case in which, for some view, the reference both requires and excludes reported endpoints"
+	res.Rule = "case = DestinationRule form {none, subsets, +outlierDetection, +localityLbSetting.failover r1->r2, +distribute from r1/z1/* to {r1/z1/*:70, r2/z1/*:30}, outlierDetection.minHealthPercent=50} x service {plain, persistent-session cookie label, persistent-session header label, cluster-local, node-local (internalTrafficPolicy Local)} x unhealthy-endpoint switches {PILOT_AUTO_SEND_UNHEALTHY_ENDPOINTS on/off x PILOT_SEND_UNHEALTHY_ENDPOINTS on/off} x history; histories: (I) every subset of size 1..3 (thorough 1..4) of the 21-endpoint alphabet (against a healthy v1 http r1/z1 registry-A network-n1 IP base: UnHealthy, Draining, Terminating, version v2, no version, other service port, locality r1/z2, r2/z1, none, weight 3, network with gateways, network without gateway, discoverable from same cluster only, hostname address, draining label, other node; four registry-B endpoints, node names node-a/node-b exist in both clusters) reported by registries A (cluster c1) and B (cluster c2), then the first element's registry re-reports the successors of its endpoints, reports the empty list, reports the original list again, and finally the other registry's cluster is removed (or, when it reported nothing, the service is deleted in the first registry); (II) every ordered pair (a,b) of alphabet elements: a's registry reports {a}, then the same address with b's attributes, with and without an unchanged companion endpoint; (III) DestinationRule histories on a fixed set of reports (plain service, default switches, proxies in namespace client): four rules for the host at the documented precedence levels (client namespace exact host > client namespace wildcard host > service namespace exported > root namespace exported), each with its own selector for subset v1 and its own traffic policy, each in a state of {absent, present, other selector, other host, exportTo own namespace (quick: only for the service- and root-namespace rules)}: every initial state vector x every move of one rule to another state (thorough: every sequence of two moves, all states for all rules), each move pushed as istiod pushes a DestinationRule event (push context updated from the previous one, cache entries of the key dropped, SetSidecarScope keeping the previous scope, partial non-forced Generate; clusters not sent keep what the subscriber had), judged for the rule the reference says is in force; after every step and for each of 3 proxies (sidecar c1/n1/r1z1 on node-a, sidecar c2/n2/r2z1 on node-a, router c1/n1/r1z2 on node-b) x 2 clusters (outbound|80||svc, outbound|80|v1|svc) the real EdsGenerator output is judged twice: as a proxy subscribing at that moment (request-driven generation through the shared XDS cache) and as a proxy that stayed subscribed and received what the update's push decision sends; one evaluation = one judged ClusterLoadAssignment; non-trivial = a case in which, for some view, the reference both requires and excludes reported endpoints"
 	defer res.Write(t, env)
 	defer featForms[0].apply()
 
@@ -614,6 +630,51 @@ func TestC13b(t *testing.T) {
 		}
 		return true
 	})
+	// (III) DestinationRule histories
+	depth, allStates := 1, false
+	if env.Thorough() {
+		depth, allStates = 2, true
+	}
+	var ruleCases int64
+	ruleHistories(depth, allStates, func(init []int, ops [][2]int) bool {
+		ruleCases++
+		inTier++
+		seq++
+		if !env.Mine(seq) {
+			return true
+		}
+		if cases%64 == 0 && env.Expired() {
+			res.Cap(fmt.Sprintf("deadline at DestinationRule history %d", ruleCases))
+			return false
+		}
+		cases++
+		c := caseT{Kind: "rules", Rules: init, RuleOps: ops}
+		check2 := cases%499 == 1
+		if check2 {
+			r.sig = &strings.Builder{}
+		}
+		if r.runCase(c) {
+			res.NontrivialCase(fmt.Sprintf("rules-%d", ruleCases))
+		}
+		if check2 {
+			first := r.sig.String()
+			r.sig = &strings.Builder{}
+			ev, id := res.Evaluations, r.identical
+			r.runCase(c)
+			res.Evaluations, r.identical = ev, id
+			second := r.sig.String()
+			r.sig = nil
+			if first != second {
+				res.Infra = "nondeterministic: second run of " + c.String() + " observed different assignments"
+				return false
+			}
+			b, _ := json.Marshal(c)
+			res.Sample(map[string]any{"case": c.String(), "replay": json.RawMessage(b)})
+		}
+		return true
+	})
+	res.Bounds["destination_rule_histories(4 rules; initial states x moves)"] = ruleCases
+	res.Bounds["destination_rule_history_depth"] = depth
 	res.Bounds["cases_in_tier"] = inTier
 	res.Count("cases", cases)
 	res.Count("subscriber_views_identical_to_the_on_request_view_just_judged", r.identical)
